@@ -256,6 +256,7 @@ type Rules struct {
 	MatcherNeedsLabel  bool // a matcher only ever matches streams that carry the label (index rows exist only for present labels)
 	JSONLastSegment    bool // json p="a.b": the type test uses the full path, the extraction only the last segment
 	JSONIndexAsKey     bool // json p="a[0]": the index is looked up as the object key "1"
+	LaterParserVisible bool // a label filter sees the labels extracted by the NEXT run of parser stages (they patch the same SELECT)
 	LaterDropVisible   bool // a label filter after the first parser sees the labels with the LATER drop stages (up to the next parser) already applied
 	HoistedLabelFilter bool // a label filter placed before the first parser stage is evaluated on the stored stream labels, ignoring earlier drop stages
 }
@@ -275,6 +276,7 @@ func (r Rules) String() string {
 	add(r.JSONIndexAsKey, "JSONIndexAsKey")
 	add(r.HoistedLabelFilter, "HoistedLabelFilter")
 	add(r.LaterDropVisible, "LaterDropVisible")
+	add(r.LaterParserVisible, "LaterParserVisible")
 	return strings.Join(s, "+")
 }
 
@@ -675,17 +677,28 @@ func (o *oracle) Eval(db *Database, qu *Query, p Params) ([]Row, error) {
 			case "label":
 				if o.rules.HoistedLabelFilter && i < firstParser {
 					pass, err = o.evalTree(s.Tree, st.Labels)
-				} else if o.rules.LaterDropVisible && i > firstParser {
+				} else if (o.rules.LaterDropVisible || o.rules.LaterParserVisible) && (i > firstParser || dropBefore(qu, i)) {
 					view := make(map[string]string, len(labels))
 					for k, v := range labels {
 						view[k] = v
 					}
+					inRun := false
 					for j := i + 1; j < len(qu.Stages); j++ {
 						sj := &qu.Stages[j]
-						if sj.Kind == "json" || sj.Kind == "regexp" {
+						isParser := sj.Kind == "json" || sj.Kind == "regexp"
+						if inRun && !isParser {
 							break
 						}
-						if sj.Kind == "drop" {
+						if isParser {
+							if !o.rules.LaterParserVisible {
+								break
+							}
+							inRun = true
+							if err = o.applyParser(sj, e.Line, view); err != nil {
+								return nil, err
+							}
+						}
+						if sj.Kind == "drop" && o.rules.LaterDropVisible {
 							for _, d := range sj.Drops {
 								if d.Val == nil || view[d.Label] == *d.Val {
 									delete(view, d.Label)
@@ -697,20 +710,8 @@ func (o *oracle) Eval(db *Database, qu *Query, p Params) ([]Row, error) {
 				} else {
 					pass, err = o.evalTree(s.Tree, labels)
 				}
-			case "json":
-				for _, jp := range s.JSON {
-					if v, found := o.jsonAt(e.Line, jp.Path); found {
-						labels[jp.Label] = v
-					} else {
-						labels[jp.Label] = ""
-					}
-				}
-			case "regexp":
-				var g map[string]string
-				g, err = o.regexpGroups(s.Val, e.Line)
-				for k, v := range g {
-					labels[k] = v
-				}
+			case "json", "regexp":
+				err = o.applyParser(s, e.Line, labels)
 			case "drop":
 				for _, d := range s.Drops {
 					if d.Val == nil || labels[d.Label] == *d.Val {
@@ -796,4 +797,36 @@ func dirName(f bool) string {
 		return "forward"
 	}
 	return "backward"
+}
+
+func dropBefore(qu *Query, i int) bool {
+	for j := 0; j < i; j++ {
+		if qu.Stages[j].Kind == "drop" {
+			return true
+		}
+	}
+	return false
+}
+
+// applyParser adds the labels a json / regexp stage extracts from the line.
+func (o *oracle) applyParser(s *Stage, line string, labels map[string]string) error {
+	switch s.Kind {
+	case "json":
+		for _, jp := range s.JSON {
+			if v, found := o.jsonAt(line, jp.Path); found {
+				labels[jp.Label] = v
+			} else {
+				labels[jp.Label] = ""
+			}
+		}
+	case "regexp":
+		g, err := o.regexpGroups(s.Val, line)
+		if err != nil {
+			return err
+		}
+		for k, v := range g {
+			labels[k] = v
+		}
+	}
+	return nil
 }
